@@ -169,7 +169,7 @@ func driveCorpus(c *driverCtx, prop string) {
 		}
 		facts := fileFacts(b, "null")
 		for ti, t := range f.targets {
-			r := readBack(t, b, readerKinds[ti%4], ti%2 == 0, -1, nil)
+			r := readBack(t, b, readerKinds[(ti)%len(readerKinds)], ti%2 == 0, -1, nil)
 			ev := map[string]any{"op": "corpus_read", "mode": prop, "file": byteList(b), "target": projectType(t), "targetName": t.String(),
 				"delivered": orEmpty(r.delivered), "recheck": orEmpty(r.recheck), "err": errString(r.err), "panic": r.panicked}
 			for k, v := range facts {
@@ -232,7 +232,7 @@ func driveRandomLegal(c *driverCtx, prop string) {
 		metaLayout = []int{0, 1, 3, 4}[i%4] // (a byte-sized metadata block is refused by the library with an explicit error: not used)
 		file := buildContainer(sj, codec, true, []byte("0123456789abcdef"), blocks)
 		metaLayout = 0
-		r := readBack(t, file, readerKinds[i%4], i%2 == 0, -1, nil)
+		r := readBack(t, file, readerKinds[(i)%len(readerKinds)], i%2 == 0, -1, nil)
 		c.rec.NewCase()
 		c.rec.Emit(fmt.Sprintf("%s|random-legal|%s", prop, strings.Join(tags, "+")), map[string]any{
 			"op": "rand_read", "mode": prop, "schema": sn, "records": recs, "target": projectType(t), "codec": codec,
@@ -353,7 +353,7 @@ func driveLongValues(c *driverCtx, prop string) {
 			for ti, t := range targets {
 				codec := codecs3[(ti+which)%3]
 				file := buildContainer([]byte(sj), codec, true, []byte("0123456789abcdef"), [][2]any{{2, raw}})
-				r := readBack(t, file, readerKinds[(ti+which)%4], ti%2 == 0, -1, nil)
+				r := readBack(t, file, readerKinds[(ti+which)%len(readerKinds)], ti%2 == 0, -1, nil)
 				c.rec.NewCase()
 				c.rec.Emit(fmt.Sprintf("%s|long-values|len%d|field%d|target%d", prop, L, which, ti), map[string]any{
 					"op": "rand_read", "mode": prop, "schema": sn, "records": recs, "target": projectType(t), "codec": codec,
@@ -470,7 +470,7 @@ func driveLongValues(c *driverCtx, prop string) {
 			for ti, t := range ztargets {
 				codec := codecs3[(ti+sized)%3]
 				file := buildContainer([]byte(zj), codec, true, []byte("0123456789abcdef"), [][2]any{{1, raw[:len(raw)/2]}, {1, raw[len(raw)/2:]}})
-				r := readBack(t, file, readerKinds[(ti+cnt)%4], ti%2 == 0, -1, nil)
+				r := readBack(t, file, readerKinds[(ti+cnt)%len(readerKinds)], ti%2 == 0, -1, nil)
 				c.rec.NewCase()
 				c.rec.Emit(fmt.Sprintf("%s|zero-width-items|count%d|sized%d|target%d", prop, cnt, sized, ti), map[string]any{
 					"op": "rand_read", "mode": prop, "schema": zn, "records": recs, "target": projectType(t), "codec": codec,
@@ -589,7 +589,7 @@ func driveVectors(c *driverCtx, prop string) error {
 				metaLayout = []int{0, 1, 3, 4}[(ti+si+from)%4]
 				file := buildContainer([]byte(topJSON), codec, true, sync, blocks)
 				metaLayout = 0
-				r := readBack(tg.t, file, readerKinds[(ti+si)%4], ti%2 == 0, -1, nil)
+				r := readBack(tg.t, file, readerKinds[(ti+si)%len(readerKinds)], ti%2 == 0, -1, nil)
 				ev := map[string]any{
 					"op": "vec_read", "mode": prop, "schema": top, "datums": datums, "target": projectType(tg.t), "targetName": tg.name,
 					"codec": codec, "delivered": orEmpty(r.delivered), "recheck": orEmpty(r.recheck), "err": errString(r.err), "panic": r.panicked,
